@@ -429,7 +429,7 @@ def checks():
     return [
         HypCheck(
             'large-sections', large_cases, run_large_entry,
-            budget={'quick': (8, 2), 'thorough': (16, 12)},
+            budget={'quick': (8, 1), 'thorough': (16, 12)},
             rule='files with one section of 64 KiB .. 200 KB (lines of 37 .. '
                  '4096 bytes, so that line terminators fall on and around '
                  'multiples of 4 KiB .. 128 KiB) cut at every offset around '
@@ -438,7 +438,7 @@ def checks():
                  'prefix-of-intact-records oracle; every case non-trivial'),
         HypCheck(
             'truncate-and-perturb', cases, run_case,
-            budget={'quick': (16, 24), 'thorough': (16, 320)},
+            budget={'quick': (16, 16), 'thorough': (16, 320)},
             rule='well-formed files (writer programs and foreign files whose '
                  'content includes complete fake sections) x EVERY cut point '
                  '0..len(file) (records must be a prefix of the intact '
